@@ -53,6 +53,8 @@ def inlinable(g):
         return False
     if g.kind in ("ctor", "dtor", "conv"):
         return False
+    if g.kind == "op" and not g.is_lambda:
+        return False         # overloaded operators of value-like classes (*h, h->, a == b) keep their operator spelling
     if len(g.stmts) > MAX_STMTS:
         return False
     if g.is_lambda:
